@@ -70,7 +70,7 @@ func TestC01(t *testing.T) {
 			}
 			owner, detail := anomaly(ans)
 			if owner != "" && owner != "C01" {
-				st.ForeignAnomaly(owner)
+				st.ForeignAnomaly(owner, c)
 				return ""
 			}
 			nonSuccess, never := 0, 0
